@@ -196,4 +196,36 @@ example : ValidV ⟨[anon [.field none "a" { skip := some (.var "v") } [fld "c"]
   | zero => simp at hi; subst hi; exact ⟨by decide, by intro f hf; cases hf⟩
   | succ i => simp at hi
 
+/-! ### requests whose variables do not coerce -/
+
+/-- `query A($n: Int!) { a { a { a { c } } } w: d } query B { c }`: the deep operation `A` is reported whether
+    `$n` is missing, `null`, of the wrong kind, or fine — an uncoercible operation is never skipped -/
+def uncoDoc : Doc := ⟨[⟨some "A", [fld "a" [fld "a" [fld "a" [fld "c"]]], ali "w" "d"]⟩, ⟨some "B", [fld "c"]⟩], []⟩
+def uncoDefs : List (List VarDefR) := [[⟨"n", .int, true, none⟩], []]
+
+theorem uncoercible_still_measured :
+    ruleR uncoDoc.fuel 1 none uncoDoc uncoDefs [] = .ok [(0, 3)] ∧
+    ruleR uncoDoc.fuel 1 none uncoDoc uncoDefs [("n", .null)] = .ok [(0, 3)] ∧
+    ruleR uncoDoc.fuel 1 none uncoDoc uncoDefs [("n", .list true)] = .ok [(0, 3)] ∧
+    ruleR uncoDoc.fuel 1 none uncoDoc uncoDefs [("n", .int 3)] = .ok [(0, 3)] ∧
+    coerceRaw [⟨"n", .int, true, none⟩] [] = none ∧ coerceRaw [⟨"n", .int, true, none⟩] [("n", .list true)] = none ∧
+    coerceRaw [⟨"n", .int, true, none⟩] [("n", .null)] = none := by decide
+
+/-- a Boolean directive variable given a JSON array does not coerce: the raw value steers the directive by
+    truthiness (`[1]` skips, `[]` does not) -/
+theorem uncoercible_raw_truthiness :
+    ruleR 5 0 none ⟨[⟨some "A", [.field none "a" { skip := some (.var "v") } [fld "a" [fld "c"]]]⟩], []⟩
+      [[⟨"v", .boolean, true, none⟩]] [("v", .list true)] = .ok [] ∧
+    ruleR 5 0 none ⟨[⟨some "A", [.field none "a" { skip := some (.var "v") } [fld "a" [fld "c"]]]⟩], []⟩
+      [[⟨"v", .boolean, true, none⟩]] [("v", .list false)] = .ok [(0, 2)] := by decide
+
+/-- finding Q1-vars2 (not fixed): when the directive variable itself is unavailable (missing, or `null`) in the
+    mapping the rule falls back to, `coerce_argument_values` raises `CoercionError` out of the rule — also for a
+    VALID request that executes another operation of the document -/
+theorem unavailable_directive_variable_raises :
+    ruleR 5 3 none ⟨[⟨some "A", [.field none "a" { skip := some (.var "v") } [fld "c"]]⟩, ⟨some "B", [fld "c"]⟩], []⟩
+      [[⟨"v", .boolean, true, none⟩], []] [] = .error .coercion ∧
+    ruleR 5 3 none ⟨[⟨some "A", [.field none "a" { skip := some (.var "v") } [fld "c"]]⟩], []⟩
+      [[⟨"v", .boolean, true, none⟩]] [("v", .null)] = .error .coercion := by decide
+
 end PyGql.Props.C19
